@@ -39,7 +39,7 @@ func GenC07(verifSeed uint64, run int) *Scenario {
 			e.ClockOffsetS = Pick(g, c07Offsets) + g.Int63n(3600)
 			e.TZOffsetMin = Pick(g, []int{-720, -480, -300, 0, 60, 330, 345, 540, 765, 840})
 			e.GoMaxProcs = Pick(g, []int{1, 2, 4, 16})
-			e.SrcMode = Pick(g, []string{"rel", "abs", "dotdot"})
+			e.SrcMode = Pick(g, []string{"rel", "abs", "dotdot", "rel", "abs", "dotdot", "dotdot-linked-cwd"})
 			e.History = g.Intn(4)
 			e.Neighbour = g.Bool(0.3)
 			e.Relocate = g.Bool(0.3)
